@@ -58,7 +58,7 @@ def rand_base(rng, names=(), paths=()):
     if rng.random() < 0.5:
         b["tags"] = [{"name": "t%d" % i, "description": "tag"} for i in range(rng.randint(1, 3))]
     if rng.random() < 0.4:
-        b["security"] = [{"key": []}]
+        b["security"] = rng.choice([[{"key": []}], [{}, {"key": []}], [{}], [], [{"key": []}, {}], [{"key": ["read", "write"]}, {"key": []}]])
     if rng.random() < 0.3:
         b["externalDocs"] = {"url": rng.choice(["https://docs.example.com", "https://docs.example.com/", "https://docs.example.com/a/../b/"])}
     if rng.random() < 0.3:
